@@ -13,6 +13,7 @@
 #include <covfie/core/field.hpp>
 #include <covfie/core/field_view.hpp>
 
+#include "probes.hpp"
 #include "vh.hpp"
 
 typedef __float128 Q;
@@ -295,9 +296,52 @@ struct Case {
         }
     }
 
+    // the layer over a backend with M != N outputs (a probe returning an injective function of the coordinate it is
+    // asked for): what reaches the backend must be A.x + t in EVERY one of the N components
+    template <std::size_t M>
+    static void layer_nm(vh::Rng & rng)
+    {
+        using probe_t = probe::nd<covfie::vector::vector_d<T, N>, covfie::vector::vector_d<double, M>>;
+        using backend_t = covfie::backend::affine<probe_t>;
+        using field_t = covfie::field<backend_t>;
+        std::string nm = name("layer") + "->M=" + std::to_string(M);
+        RefAffine<N> r = rnd_int(rng, 4);
+        vh::set_case("%s", nm.c_str());
+        field_t f(covfie::make_parameter_pack(typename backend_t::configuration_t(make(r)), std::monostate{}));
+        typename field_t::view_t view(f);
+        for (int rep = 0; rep < 6; ++rep) {
+            Q x[N], y[N];
+            typename field_t::coordinate_t c;
+            for (std::size_t i = 0; i < N; ++i) {
+                x[i] = (Q)rng.range(-6, 6);
+                c[i] = (T)x[i];
+            }
+            r.apply(x, y);
+            typename field_t::output_t g = view.at(c);
+            vh::ev();
+            vh::nontrivial(vh::fnv(x, sizeof x, vh::fnv(&r, sizeof r, vh::fnv(nm))));
+            Q w = 1, sum = 0;
+            for (std::size_t k = 0; k < N; ++k) {
+                sum += y[k] * w;
+                w *= 64;
+            }
+            for (std::size_t j = 0; j < M; ++j)
+                if ((Q)g[j] != sum + (Q)j * w) {
+                    vh::viol(nm, "A=" + show(r) + " x=" + showv(x) + ": the backend was not asked at A.x+t=" + showv(y) + " (component " + std::to_string(j) + " of its answer is " + qs((Q)g[j]) + ", expected " + qs(sum + (Q)j * w) + ")");
+                    return;
+                }
+        }
+    }
+
     static void run(vh::Rng & rng, uint64_t n)
     {
         if (!vh::selected(name(""))) return;
+        for (int k = 0; k < 40; ++k) {
+            layer_nm<1>(rng);
+            layer_nm<2>(rng);
+            layer_nm<3>(rng);
+            layer_nm<4>(rng);
+        }
         for (uint64_t i = 0; i < n; ++i) {
             std::size_t len = 1 + rng.below(4);
             chain_case(rng, len, true, rng.coin());
